@@ -9,7 +9,7 @@ from marshmallow.decorators import pre_load
 
 from aiomysensors.exceptions import MissingChildError
 
-from .const import NODE_ID_FIELD
+from .const import MAX_BATTERY_LEVEL, MIN_BATTERY_LEVEL, NODE_ID_FIELD
 
 
 class Node:
@@ -142,7 +142,9 @@ class NodeSchema(Schema):
     children = fields.Dict(keys=fields.Int(), values=fields.Nested(ChildSchema))
     sketch_name = fields.Str()
     sketch_version = fields.Str()
-    battery_level = fields.Int(validate=validate.Range(min=0, max=100))
+    battery_level = fields.Int(
+        validate=validate.Range(min=MIN_BATTERY_LEVEL, max=MAX_BATTERY_LEVEL),
+    )
     heartbeat = fields.Int()
     sleeping = fields.Bool()
 
